@@ -411,3 +411,45 @@ Proof.
   cbv zeta. split; [reflexivity|]. split; [reflexivity|]. split; [reflexivity|].
   eexists. split; [vm_compute; reflexivity|]. split; vm_compute; reflexivity.
 Qed.
+
+(** ** the remaining hypotheses are satisfiable too *)
+Example expand_ewf_relative_applies :   (* under a choice: a case added to one existing case *)
+  (negb true || forallb is_case_stmt [dcy]) = true /\
+  ewf_from 0 true [] [ENode KCase [x78] no_props [] []] = true /\
+  expand 3 ex_cx [ENode KCase [x78] no_props [] []] [dcy] =
+  Ok [ENode KCase [x78] no_props [] []; ENode KCase [x79] no_props [] [ENode KLeaf [x71] no_props [] []]].
+Proof. repeat split; vm_compute; reflexivity. Qed.
+
+Example expand_case_order_applies :
+  let cx := mkCtx [[]] (ME [x6d] [] []) in
+  crel cx cx /\
+  Forall2 sperm [SNode KChoice [x7a] no_props [] [] [lf [x62]; lf [x61]]]
+                [SNode KChoice [x7a] no_props [] [] [lf [x61]; lf [x62]]] /\
+  Forall2 eperm [] [] /\ ewf_list false [] [] = true /\
+  exists out, expand 4 cx [] [SNode KChoice [x7a] no_props [] [] [lf [x62]; lf [x61]]] = Ok out /\
+              length out = 1.
+Proof.
+  cbv zeta. split; [split; cbn; repeat constructor|].
+  split; [constructor; [apply sperm_choice_perm; apply perm_swap|constructor]|].
+  split; [constructor|]. split; [reflexivity|].
+  eexists. split; vm_compute; reflexivity.
+Qed.
+
+Example uses_unfold_applies :
+  let cx := mkCtx [[SGrouping [x67] [] ge_B; ge_h]; []] ge_m in
+  let cg := mkCtx [[]; [SGrouping [x67] [] ge_B; ge_h]; []] ge_m in
+  find_grouping cx None [x67] = Some (ge_B, cg) /\ ctx_eqv cg cx /\
+  (exists out, expand 4 cx [] (SUses None [x67] None [] [] :: ge_rest) = Ok out /\
+               expand 4 cx [] (ge_B ++ ge_rest) = Ok out).
+Proof.
+  cbv zeta. split; [reflexivity|]. split; [split; reflexivity|].
+  eexists. split; vm_compute; reflexivity.
+Qed.
+
+Example unused_grouping_invisible_applies :
+  ctx_ins [x67] (SGrouping [x67] [] ge_B) (mkCtx [[ge_h]; []] ge_m)
+          (mkCtx [[SGrouping [x67] [] ge_B; ge_h]; []] ge_m) /\
+  clean [x67] (ge_B ++ ge_rest) = true.
+Proof.
+  split; [|reflexivity]. split; [split; reflexivity|]. split; [constructor|repeat constructor].
+Qed.
